@@ -85,7 +85,7 @@ def r09_a(prog: Program, chk: Check) -> None:
         "R09.a",
         "every captured branch scope flows into combine_subscopes (directly, through a local list, or through a "
         "helper parameter); uncaptured subscopes are the discard idiom",
-        floor=20,
+        floor=12,
     )
     n = 0
     for cname in ("NameCheckVisitor", "PatmaVisitor"):
@@ -158,7 +158,7 @@ def r09_b(prog: Program, chk: Check) -> None:
         "conditionally executed children (if/else bodies, loop bodies and else, try body/handlers/else, case "
         "bodies, later operands of and/or, suppressing with-bodies, the failing path of finally) are visited "
         "inside a subscope",
-        floor=14,
+        floor=9,
     )
     ci = prog.cls("NameCheckVisitor")
     for mname, fields in CONDITIONAL_CHILDREN.items():
